@@ -73,7 +73,7 @@ Print Assumptions C10_refuted_panic.
 (** tie to the correspondence check: agreement with the repaired model on a
     case implies the executable spec on the implementation's observations *)
 Theorem C10_agree_implies_spec : forall c,
-  0 <= c_n c -> 1 <= c_batch c -> 1 <= c_par c ->
+  0 <= c_n c -> 1 <= c_batch c -> 1 <= c_par c -> c_kind c <> KPushIn ->
   agree PCeilClip c = true -> spec_ok c = true.
 Proof. exact agree_fixed_spec. Qed.
 Print Assumptions C10_agree_implies_spec.
